@@ -175,13 +175,13 @@ var _ event.MessageMetadata
 
 //@ func (*msgListenerV1).Close
 //@   requires spec_lsnV1OK(ml) && msghub.Spec_hubOpen(ml.hub)
-//@   modifies ghost_onceDone(&ml.closeOnce), ghost_closedV1(ml.c), ghost_nremoveReq(ml.hub)
+//@   modifies ghost_onceDone(&ml.closeOnce), ghost_closedV1(ml.c), ghost_nremoveReq(ml.hub), allof(ghost_nsent)
 //@   ensures[closed C15] spec_lsnV1OK(ml) && ghost_closedV1(ml.c)
 //@   ensures[deregistersOnce C15] msghub.Ghost_nremoveReq(ml.hub) == old(msghub.Ghost_nremoveReq(ml.hub)) + vcIte(old(ghost_onceDone(&ml.closeOnce)), 0, 1)
 //@   serves C15
 //@ func (*msgListenerV2).Close
 //@   requires spec_lsnV2OK(ml) && msghub.Spec_hubOpen(ml.hub)
-//@   modifies ghost_onceDone(&ml.closeOnce), ghost_closedV2(ml.c), ghost_nremoveReq(ml.hub)
+//@   modifies ghost_onceDone(&ml.closeOnce), ghost_closedV2(ml.c), ghost_nremoveReq(ml.hub), allof(ghost_nsent)
 //@   ensures[closed C15] spec_lsnV2OK(ml) && ghost_closedV2(ml.c)
 //@   ensures[deregistersOnce C15] msghub.Ghost_nremoveReq(ml.hub) == old(msghub.Ghost_nremoveReq(ml.hub)) + vcIte(old(ghost_onceDone(&ml.closeOnce)), 0, 1)
 //@   serves C15
